@@ -334,12 +334,23 @@ pub fn gen_grammar_idiom(rng: &mut Rng, cfg: &GenCfg, k: usize) -> Vec<Rule> {
     let has_ws = names.iter().any(|n| n == "WHITESPACE");
     let idiom = match k {
         0 => { let mut g = GGen { rng, cfg, names: names.clone(), cur: 0, has_atomic: true }; g.stack_stress(2) }
-        1 => { let pk = |rng: &mut Rng| match rng.below(3) { 0 => Expr::Ident("PEEK_ALL".into()), 1 => Expr::PeekSlice(0, None), _ => Expr::PeekSlice(0, Some(2)) };
+        1 => { let e_old = { let pk = |rng: &mut Rng| match rng.below(3) { 0 => Expr::Ident("PEEK_ALL".into()), 1 => Expr::PeekSlice(0, None), _ => Expr::PeekSlice(0, Some(2)) };
             let p1 = pk(rng);
             let w = match rng.below(3) { 0 => Expr::Opt(bx(p1)), 1 => { let p2 = pk(rng); Expr::Choice(bx(p1), bx(p2)) } _ => Expr::Rep(bx(Expr::Seq(bx(p1), bx(s(rng))))) };
             let tail = if rng.chance(1, 2) { Expr::Ident("ANY".into()) } else { s(rng) };
             let a = *rng.pick(&["a", "b"]); let b = *rng.pick(&["a", "b", "c"]);
-            Expr::Seq(bx(Expr::Push(bx(Expr::Str(a.into())))), bx(Expr::Seq(bx(Expr::Push(bx(Expr::Str(b.into())))), bx(Expr::Seq(bx(w), bx(tail)))))) }
+            Expr::Seq(bx(Expr::Push(bx(Expr::Str(a.into())))), bx(Expr::Seq(bx(Expr::Push(bx(Expr::Str(b.into())))), bx(Expr::Seq(bx(w), bx(tail)))))) };
+            // (the random choices above are made in every variant, so that the grammars that follow are the same as before)
+            if variant % 3 == 2 {
+                // a nested sequence (through rules) that pops BOTH a value pushed inside the enclosing alternative and one pushed
+                // before it, succeeds, and the alternative then fails: the next alternative must find the stack as it was
+                let (a, b) = if variant % 2 == 0 { ("a", "b") } else { ("b", "a") };
+                let un = format!("un{}", rules.len()); let at = format!("at{}", rules.len());
+                rules.push(Rule { name: un.clone(), ty: RuleType::Normal, expr: Expr::Seq(bx(Expr::Ident("POP".into())), bx(Expr::Ident("POP".into()))) });
+                rules.push(Rule { name: at.clone(), ty: RuleType::Normal, expr: Expr::Seq(bx(Expr::Push(bx(Expr::Str(b.into())))), bx(Expr::Ident(un))) });
+                let fallback = Expr::Seq(bx(Expr::Str(format!("{}{}", b, b))), bx(Expr::Ident("POP".into())));
+                Expr::Seq(bx(Expr::Push(bx(Expr::Str(a.into())))), bx(Expr::Choice(bx(Expr::Seq(bx(Expr::Ident(at)), bx(Expr::Str("c".into())))), bx(fallback))))
+            } else { e_old } }
         2 => { let inner = match rng.below(4) { 0 => Expr::Push(bx(s(rng))), 1 => Expr::Ident("POP".into()), 2 => Expr::Ident("DROP".into()), _ => Expr::Seq(bx(Expr::Push(bx(s(rng)))), bx(s(rng))) };
             let pred = if rng.chance(3, 4) { Expr::PosPred(bx(inner)) } else { Expr::NegPred(bx(Expr::NegPred(bx(inner)))) };
             let reader = Expr::Ident(rng.pick(&["POP", "PEEK", "PEEK_ALL"]).to_string());
@@ -349,8 +360,9 @@ pub fn gen_grammar_idiom(rng: &mut Rng, cfg: &GenCfg, k: usize) -> Vec<Rule> {
             // every other grammar of this idiom has four or five case-sensitive terminators of different lengths (the general
             // search path of skip_until, where a short terminator may sit in the last bytes of the input)
             let fixed: Option<&[&str]> = match variant % 4 { 0 => Some(&["ab", "c", "ba", "bc"]), 2 => Some(&["abc", "b", "ca", "cb", "x"]), _ => None };
-            let mut alts: Vec<Expr> = match fixed { Some(ts) => ts.iter().map(|t| Expr::Str(t.to_string())).collect(),
-                None => (0..n).map(|_| { let t = rng.pick(&pool[..]).to_string(); if rng.chance(1, 3) { Expr::Insens(t) } else { Expr::Str(t) } }).collect() };
+            // (the random terminators are drawn in every variant, so that the grammars that follow are the same as before)
+            let drawn: Vec<Expr> = (0..n).map(|_| { let t = rng.pick(&pool[..]).to_string(); if rng.chance(1, 3) { Expr::Insens(t) } else { Expr::Str(t) } }).collect();
+            let mut alts: Vec<Expr> = match fixed { Some(ts) => ts.iter().map(|t| Expr::Str(t.to_string())).collect(), None => drawn };
             let mut e = alts.pop().unwrap(); while let Some(x) = alts.pop() { e = Expr::Choice(bx(x), bx(e)); }
             let nm = format!("sk{}", rules.len());
             let unit = Expr::Seq(bx(Expr::NegPred(bx(e.clone()))), bx(Expr::Ident("ANY".into())));
